@@ -424,6 +424,9 @@ fn try_from_case(ctx: &mut CaseCtx) -> CaseResult {
         "caf\u{e9}/\u{e9}t\u{e9}.log",
         "sp ace/f i.log",
         "x_rCURRENT.log",
+        "app.log.txt",
+        ".hidden.log.txt",
+        "v1.2.3/prog-1.2.log",
     ];
     let pick = *rng.pick(rel);
     let absolute = rng.chance(1, 2);
@@ -508,6 +511,63 @@ fn try_from_case(ctx: &mut CaseCtx) -> CaseResult {
                             );
                         }
                     }
+                }
+            }
+        }
+    }
+    // the same path with rotation: the listing must show exactly the files the writer created
+    if res.verdict == Verdict::Held {
+        let p2 = ctx.dir.join("rot").join(pick);
+        if let Ok(Ok(fs2)) = std::panic::catch_unwind(|| FileSpec::try_from(p2.clone())) {
+            let built = FileLogWriter::builder(fs2)
+                .format(flw::fmt_raw)
+                .rotate(
+                    flexi_logger::Criterion::Size(0),
+                    *rng.pick(&[flexi_logger::Naming::Numbers, flexi_logger::Naming::NumbersDirect, flexi_logger::Naming::Timestamps]),
+                    flexi_logger::Cleanup::Never,
+                )
+                .try_build();
+            match built {
+                Err(e) => res.violate(
+                    "logger-cannot-be-built",
+                    format!("C16/logger-cannot-be-built/{facts}/with-rotation"),
+                    format!("FileSpec::try_from({:?}) + rotation: {e:?}", p2),
+                ),
+                Ok(w) => {
+                    for k in 0..3u64 {
+                        let m = flw::msg_id(ctx.case, 1, k, 6);
+                        flw::with_record(log::Level::Info, "t", &m, |rec| {
+                            let _ = w.write(&mut DeferredNow::new(), rec);
+                        });
+                    }
+                    let _ = w.flush();
+                    let listed: std::collections::BTreeSet<String> = w
+                        .existing_log_files(&flexi_logger::LogfileSelector::default().with_r_current())
+                        .unwrap_or_default()
+                        .iter()
+                        .filter_map(|x| x.file_name().map(|n| n.to_string_lossy().to_string()))
+                        .collect();
+                    let parent = p2.parent().map(Path::to_path_buf).unwrap_or_default();
+                    let there: std::collections::BTreeSet<String> = std::fs::read_dir(&parent)
+                        .map(|rd| {
+                            rd.flatten()
+                                .filter(|e| e.path().is_file())
+                                .map(|e| e.file_name().to_string_lossy().to_string())
+                                .collect()
+                        })
+                        .unwrap_or_default();
+                    res.count("try_from_rotation_listings_compared", 1);
+                    if listed != there || there.len() < 3 {
+                        res.violate(
+                            "listing-differs",
+                            format!("C16/try_from-with-rotation-listing-differs/{facts}"),
+                            format!(
+                                "FileSpec::try_from({:?}) with rotation: existing_log_files (incl. current) gives {listed:?}, the directory holds {there:?}",
+                                p2
+                            ),
+                        );
+                    }
+                    drop(w);
                 }
             }
         }
